@@ -7,7 +7,7 @@ go build ./... || exit 1
 out=$(go test -vet=off -count=1 ./... 2>&1)
 if echo "$out" | grep -q "^FAIL"; then
   for i in 1 2; do
-    if echo "$out" | grep "^FAIL" | grep -qv "github.com/olareg/olareg\s"; then break; fi
+    if echo "$out" | grep "^FAIL\s" | grep -qv "github.com/olareg/olareg\s"; then break; fi
     out2=$(go test -vet=off -count=1 . 2>&1)
     if ! echo "$out2" | grep -q "^FAIL"; then echo "SUITE OK (root package passed on retry $i)"; exit 0; fi
   done
